@@ -112,9 +112,12 @@ tcptran_pipe_stop(void *arg)
 	nni_aio_stop(&p->txaio);
 	nni_aio_stop(&p->negoaio);
 	nng_stream_stop(p->conn);
-	nni_mtx_lock(&ep->mtx);
-	nni_list_node_remove(&p->node);
-	nni_mtx_unlock(&ep->mtx);
+	if (ep != NULL) {
+		// (ep is NULL if pipe creation failed before it was started)
+		nni_mtx_lock(&ep->mtx);
+		nni_list_node_remove(&p->node);
+		nni_mtx_unlock(&ep->mtx);
+	}
 }
 
 static int
